@@ -23,7 +23,7 @@ ROOT = Path(__file__).resolve().parent.parent
 LEAN = ROOT / "lean"
 WORK = ROOT / ".work"
 REPO = Path(os.environ.get("VERIF_REPO", "/repo"))
-DRV = LEAN / ".lake" / "build" / "bin" / "modeldrv"
+BIN = LEAN / ".lake" / "build" / "bin"
 ALLOWED_AXIOMS = {"propext", "Classical.choice", "Quot.sound"}
 FORBIDDEN = re.compile(
     r"\bsorry\b|\badmit\b|^\s*axiom\s|\bnative_decide\b|\bbv_decide\b|"
@@ -119,13 +119,15 @@ class Check:
         self.extra: dict = {}
         self.level = "proof"
         self.quick = tier == "quick"
+        self.drv = f"drv_{prop.lower()}"          # lake exe target of this property's model driver
+        self.drv_root = f"Driver.{prop}Main"
 
     # ---------------------------------------------------------------- step A
     def lean(self, modules: list[str], theorems: list[str], build_extra: list[str] | None = None,
              leanchecker: bool | None = None) -> bool:
         """Build the Lean modules, grep for escape hatches, `#print axioms` every theorem."""
         ok = True
-        targets = list(modules) + (build_extra or []) + ["modeldrv"]
+        targets = list(modules) + (build_extra or []) + [self.drv]
         cmd = ["lake", "build", *targets]
         self.checker_cmds.append("cd lean && " + " ".join(cmd))
         rc, log = run(cmd, cwd=LEAN, timeout=7200)
@@ -133,14 +135,14 @@ class Check:
             ok = False
             self.proof_failures.append("lake build failed: " + log[-3000:])
         # grep for escape hatches in everything the theorems depend on (project-local)
-        for p in lean_closure(modules + ["Driver.Main"]):
+        for p in lean_closure(modules + [self.drv_root]):
             src = strip_lean_comments(p.read_text())
             for ln, line in enumerate(src.splitlines(), 1):
                 if FORBIDDEN.search(line):
                     ok = False
                     self.proof_failures.append(f"forbidden token in {p.relative_to(ROOT)}:{ln}: {line.strip()}")
         # Mathlib must not leak into Model/Driver/Gen
-        for p in lean_closure(["Driver.Main"]):
+        for p in lean_closure([self.drv_root]):
             if re.search(r"^\s*import\s+(Mathlib|Aesop|Batteries)", p.read_text(), re.M):
                 ok = False
                 self.proof_failures.append(f"model file imports Mathlib: {p}")
@@ -181,10 +183,11 @@ class Check:
         return ok
 
     # ---------------------------------------------------------------- step B
-    def model(self, lines: list[str]) -> list[str]:
+    def model(self, lines: list[str], drv: str | None = None) -> list[str]:
         """Run the compiled model driver on protocol lines (one output line per input line)."""
         if not lines:
             return []
+        DRV = BIN / (drv or self.drv)
         if not DRV.exists():
             self.proof_failures.append("model driver missing (build failed)")
             return ["<nodriver>"] * len(lines)
